@@ -1,6 +1,8 @@
 import CJ.Drv.Loop
-/-! Driver for C10 (stub until the models are written). -/
+import CJ.Drv.Detector
+/-! Driver for C10: the station → detector channel model. -/
 open CJ.Drv
 
 def main : IO Unit := runDriver fun
+  | "c10" :: args => Detector.handle args
   | _ => none
